@@ -96,7 +96,7 @@ def expected_dict(scenario, tags, prev_dict, ops):
         if o[0] == "set":
             d[KEYS[o[1]]] = (tags[o[2]], bool(o[3]))
     if scenario == "solve":
-        _th, opc = iofs.example_cards()
+        _th, opc = iofs.solve_cards()
         for ep in opc.evolgrid:
             d[(float(ep[0]), int(ep[1]))] = (tags["j"], True)
     return d
@@ -158,6 +158,41 @@ def _phase(fs):
 
 
 # ---------------------------------------------------------------------------
+# fall-back replays: real-side fault points that do not depend on the model's step numbering.  They are registered at
+# the start of every case, so that a model/engine exception under a code change still ends in a replayed verdict.
+GENERIC_FAULTS = [
+    [{"kind": "tar-close", "rel": "*", "nth": 1}, {"kind": "tar-add", "rel": ".", "nth": 1}, {"kind": "tar-open", "rel": "*", "nth": 1},
+     {"kind": "replace", "rel": "*", "nth": 1}],
+    [{"kind": "tar-add", "rel": "./theory.yaml", "nth": 1}, {"kind": "tar-close", "rel": "*", "nth": 2}, {"kind": "tar-add", "rel": ".", "nth": 2},
+     {"kind": "tar-add", "rel": "./theory.yaml", "nth": 2}],
+    [{"kind": "compute", "rel": "join", "nth": 2}, {"kind": "compute", "rel": "join", "nth": 1}, {"kind": "compute", "rel": "join", "nth": 3},
+     {"kind": "compute", "rel": "evolve", "nth": 1}],
+    [{"kind": "user", "rel": "u1", "nth": 1}, {"kind": "user", "rel": "u2", "nth": 1}, {"kind": "rmtree", "rel": "*", "nth": 1},
+     {"kind": "unlink", "rel": "*", "nth": 1}],
+    [None, None, None, None],
+]
+
+
+def _cycle():
+    n = [0]
+
+    def sampler(rng):
+        n[0] += 1
+        return {"i": n[0] - 1}
+
+    return sampler
+
+
+def _register_fallbacks(log, scenario):
+    for g in range(len(GENERIC_FAULTS)):
+        log.register_replay("%s:fallback" % scenario, (MOD, "replay_generic", {"scenario": scenario, "group": g}), _cycle())
+
+
+def replay_generic(point, scenario, group):
+    f = GENERIC_FAULTS[group][int(point.get("i", 0)) % len(GENERIC_FAULTS[group])]
+    return replay_session(point, scenario, [f])
+
+
 def case_session(log, scenario, nfaults=1, k1lo=0, k1hi=BIG):
     """k1lo..k1hi: the part of the domain of the first crash index handled by this case (parallelism only)."""
     log.encode(*iofs.encoded_functions())
@@ -166,6 +201,7 @@ def case_session(log, scenario, nfaults=1, k1lo=0, k1hi=BIG):
 
         log.encode(managed.solve, recipes.create, rops.retrieve)
     pre_ops, ops = SCEN[scenario]
+    _register_fallbacks(log, scenario)
     covered = []
     _dec = iofs.Decider(log)
 
@@ -400,7 +436,7 @@ def replay_session(point, scenario, faults):
     prev_dict = iofs.dict_after({}, pre_ops, tags) if scenario == "edit" else {}
     D = iofs.dict_after(prev_dict, ops, tags)
     if scenario == "solve":
-        _th, opc = iofs.example_cards()
+        _th, opc = iofs.solve_cards()
         want_keys = {(float(a), int(b)) for a, b in opc.evolgrid}
     with scratch() as d:
         prev_sha, prev_content, recs = iofs.run_real(scenario, ops, pre_ops, faults, tags, d, compute_hook=_hook_real_compute)
